@@ -166,7 +166,7 @@ func shrinkC04(w *c04W) []interface{} {
 		}
 		out = append(out, n)
 	}
-	if w.Mode == "crash" && w.CrashOp < 0 {
+	if (w.Mode == "crash" || w.Mode == "write-error") && w.CrashOp < 0 {
 		for i := range w.Ops {
 			n := cp()
 			n.CrashOp = i
@@ -263,6 +263,12 @@ func execC04(w *c04W, x *Exec) *Outcome {
 			if op.Op == "reopen" {
 				o.Count("fault:clean_reopen", 1)
 			}
+			if w.Mode == "write-error" && mutating(op) && (w.CrashOp < 0 || w.CrashOp == i) {
+				if v := errorEnumerate(h, i, op, w.Ops[i+1:], o, x); v != nil {
+					viol = v
+					return
+				}
+			}
 			if w.Mode == "crash" && mutating(op) && (w.CrashOp < 0 || w.CrashOp == i) {
 				if v := crashEnumerate(h, i, op, w.Ops[i+1:], o, x); v != nil {
 					viol = v
@@ -283,7 +289,7 @@ func execC04(w *c04W, x *Exec) *Outcome {
 					o.Count("ended_at_C03_divergence", 1)
 					return
 				}
-				if w.Mode == "crash" {
+				if w.Mode == "crash" || w.Mode == "write-error" {
 					o.Count("ended_at_C03_divergence", 1)
 					return
 				}
